@@ -39,6 +39,7 @@ tvars == <<tid, pos, arr, grids, last, depth>>
 Range(s) == { s[i] : i \in 1..Len(s) }
 \* kinds in order, with the lengths of the non-grid dims (a grid dim's length is GridDimsConsistent's business)
 KN(ds)   == [i \in 1..Len(ds) |-> <<ds[i].k, IF ds[i].k \in GridKinds THEN 0 ELSE ds[i].n>>]
+LOp(ln)  == OpM(ln.op, ln.d, Range(ln.m))
 NameOf(x) == IF x \in {"v", "w", "none"} THEN x ELSE "free"
 
 \* the logged result as an abstract array (bookkeeping fields taken from the expectation e)
@@ -56,7 +57,7 @@ Ended(ln, o, a) == \/ ln.out = "xr_refused" /\ B(o.op) \notin OwnOps
 
 (* ---- the clauses of one step -------------------------------------------- *)
 \* (operator arguments are evaluated once by TLC, LET definitions at every use: hence the two levels)
-ClausesOf(ln, a, G, o, free, e, L, val) ==
+ClausesOf(ln, a, G, o, free, e, L, val, mixed) ==
   [ Raises   |-> ln.out # "raised" /\ (ln.out = "refused" => free) /\ (ln.out = "xr_refused" => B(o.op) \notin OwnOps),
     IsUx     |-> val => IsUxArr(L),
     SameGrid |-> (val /\ IsUxArr(L)) => IF free THEN L.grid \in {a.grid, NewHandle(G)} ELSE L.grid = e.grid,
@@ -75,13 +76,32 @@ ClausesOf(ln, a, G, o, free, e, L, val) ==
                                /\ a.grid \in Range(ln.g.eq) /\ Range(ln.g.share) = {}
                                /\ Range(ln.g.mem) = {} /\ Range(ln.g.leak) = {},
     Name     |-> (val /\ ~free) => e.name = "free" \/ NameOf(ln.name) = e.name,
-    ValuesAsXarray |-> ln.val # "diff"
+    ValuesAsXarray |-> ln.val # "diff",
+    \* ---- mixed-location datasets: every companion variable of the result (ln.comp) ----
+    MixedIsUx       |-> mixed => \A i \in 1..Len(ln.comp) : ln.comp[i].cls = "Ux",
+    MixedSameGrid   |-> mixed => \A i \in 1..Len(ln.comp) : ln.comp[i].cls = "Ux" => ln.comp[i].grid = ln.grid,
+    MixedGridDims   |-> mixed => \A i \in 1..Len(ln.comp) : ln.comp[i].cls = "Ux" =>
+                          \A j \in 1..Len(ln.comp[i].dims) :
+                             LET q == ln.comp[i].dims[j]
+                             IN q.k \in GridKinds => /\ ln.comp[i].grid # 0 /\ q.n = ln.comp[i].grid
+                                                      /\ q.size = ln.g.cnt[q.k],
+    MixedDimsEffect |-> mixed => /\ { ln.comp[i].c : i \in 1..Len(ln.comp) } = o.m
+                                 /\ (free /\ o.op \notin MixSelectOps) \/
+                                    \A i \in 1..Len(ln.comp) :
+                                       KN(ln.comp[i].dims) = [j \in 1..Len(CompExp(o, a, G)[ln.comp[i].c]) |->
+                                           LET q == CompExp(o, a, G)[ln.comp[i].c][j]
+                                           IN <<q[1], IF q[1] \in GridKinds THEN 0 ELSE q[2]>>],
+    MixedFollowsGrid |-> (mixed /\ o.op \in MixSelectOps \cup {"ds_copy_deep"}) =>
+                            \A i \in 1..Len(ln.comp) :
+                               /\ ln.comp[i].val # "diff"
+                               /\ Len(ln.comp[i].src) = Len(ln.comp[i].sel) => ln.comp[i].src = ln.comp[i].sel
   ]
-Clauses2(ln, a, G, o, e) == ClausesOf(ln, a, G, o, IsFree(o, a), e, Logged(ln, a, e), ln.out = "value")
-Clauses(ln, a, G) == Clauses2(ln, a, G, Op(ln.op, ln.d), Eff(Op(ln.op, ln.d), a, G).a)
+Clauses2(ln, a, G, o, e) == ClausesOf(ln, a, G, o, IsFree(o, a), e, Logged(ln, a, e), ln.out = "value",
+                                      ln.out = "value" /\ o.m # {} /\ ln.cls = "Ux")
+Clauses(ln, a, G) == Clauses2(ln, a, G, LOp(ln), Eff(LOp(ln), a, G).a)
 IsEvent(ln) == ln.op \in AllOps /\ ln.out \in {"value", "raised", "refused", "xr_refused"}
 Failed(ln, a, G) == IF ~IsEvent(ln) THEN {"IsEvent"}
-                    ELSE IF ~Pre(Op(ln.op, ln.d), a, G) THEN {"Enabled"}
+                    ELSE IF ~Pre(LOp(ln), a, G) THEN {"Enabled"}
                     ELSE LET c == Clauses(ln, a, G) IN { k \in DOMAIN c : ~c[k] }
 
 InitClauses(t) == LET a == t.init.arr G == t.init.grids
@@ -102,7 +122,7 @@ Pick == /\ tid < 0
 
 Step == /\ tid > 0 /\ pos < Len(Traces[tid].steps)
         /\ LET ln == Traces[tid].steps[pos + 1]
-               o  == Op(ln.op, ln.d)
+               o  == LOp(ln)
            IN /\ Failed(ln, arr, grids) = {}
               /\ ln.out = "value"
               /\ LET r == Eff(o, arr, grids)
@@ -125,6 +145,6 @@ Report ==
         LET ln == Traces[tid].steps[pos + 1]
             f  == Failed(ln, arr, grids)
         IN \/ f = {} /\ ln.out = "value"
-           \/ f = {} /\ Ended(ln, Op(ln.op, ln.d), arr) /\ PrintT(<<"E", Traces[tid].id, pos + 1, ln.out>>)
+           \/ f = {} /\ Ended(ln, LOp(ln), arr) /\ PrintT(<<"E", Traces[tid].id, pos + 1, ln.out>>)
            \/ PrintT(<<"R", Traces[tid].id, pos + 1, f>>)
 =============================================================================
